@@ -378,6 +378,14 @@ func (sc *SubCache[EntityT, ExcerptT, CacheT]) Resolve(id entity.Id) (CacheT, er
 	verifhook.Point("cache.resolve.loaded")
 
 	sc.mu.Lock()
+	if existing, ok := sc.cached[id]; ok {
+		// Another caller loaded the same entity while the lock was released. There must be a single
+		// loaded instance per entity: edits made on a second copy would be committed on top of a stale
+		// history and overwrite each other.
+		sc.lru.Get(id)
+		sc.mu.Unlock()
+		return existing, nil
+	}
 	sc.cached[id] = cached
 	sc.lru.Add(id)
 	sc.mu.Unlock()
